@@ -290,7 +290,9 @@ func expected(action string, dir string) expect {
 			}
 			return expect{b.Bytes(), 0, "raw"}
 		}
-		return expect{encJSON(r), 0, "json"}
+		// the dump: compared byte for byte (table, column and row order are part of what the program prints; remediation R6:
+		// the array sorting of canonJSON hid them).  -sequences keeps "json" until FindSequences' order is deterministic.
+		return expect{encJSON(r), 0, "raw"}
 	case "file":
 		path := sub(unhexS(f[1]))
 		switch f[2] {
